@@ -114,6 +114,12 @@ namespace {
         pk::draw_runtime(ctx, 4);
         // completion mode: method (0,8,16,24) + inline request + inline completion + high priority
         int64_t mode = ctx.params.set("c20.completion_mode", (int64_t) r.below(32));
+        // The yield_while handler (modes 0-7) makes every waiting task a yield-poller. Where no idle worker can take over
+        // pending work (one worker, stealing switched off or limited by the drawn queue parameters) such pollers starve
+        // a task that another thread queued on their worker for good - C01's known finding, which would show here as a
+        // liveness failure of MPI completion. Those configurations use the suspend_resume handler with the same flags.
+        auto no_yield_pollers_without_stealing = [&ctx](int64_t m) { return m < 8 && !pk::steals(ctx) ? m + 8 : m; };
+        mode = ctx.params.set("c20.completion_mode", no_yield_pollers_without_stealing(mode));
         int64_t pool = ctx.params.set("c20.mpi_pool", r.chance(1, 3) ? 1 : 0);
         int nbatches = (int) ctx.params.set("c20.batches", r.range(1, 3));
         // one run in three keeps many requests outstanding at once (completions are held back until a
@@ -167,10 +173,13 @@ namespace {
         g_dump_hook = +[]() -> std::string {
             sim_mpi_stats st;
             sim_mpi_get_stats(&st);
+            std::string per;
+            for (size_t i = 0; i < M.size() && i < 80; i++)
+                per += sfmt(" %zu:%s%d%d", i, M[i]->send_handle ? (M[i]->recv_handle ? "SR" : "S-") : "--", M[i]->send_signals, M[i]->recv_signals);
             return pk::dump() +
-                sfmt(" | mpi: posted=%llu completed=%llu inflight=%llu signals %d of %d, pika work count %zu",
+                sfmt(" | mpi: posted=%llu completed=%llu inflight=%llu signals %d of %d, pika work count %zu | messages (posted, send/recv signals):%s",
                     (unsigned long long) st.posted, (unsigned long long) st.completed, (unsigned long long) st.inflight, g_signals,
-                    g_expected_signals, mpi::get_work_count());
+                    g_expected_signals, mpi::get_work_count(), per.c_str());
         };
         int provided = 0;
         MPI_Init_thread(nullptr, nullptr, MPI_THREAD_MULTIPLE, &provided);
@@ -206,7 +215,8 @@ namespace {
             // mode than the one before (set between the sessions, while nothing is in flight)
             if (b > 0)
             {
-                int64_t m2 = ctx.params.set(sfmt("c20.mode_batch%d", b), r.chance(1, 2) ? mode : (int64_t) r.below(32));
+                int64_t m2 = ctx.params.set(sfmt("c20.mode_batch%d", b),
+                    no_yield_pollers_without_stealing(r.chance(1, 2) ? mode : (int64_t) r.below(32)));
                 if (m2 != mode)
                 {
                     mpi::detail::set_completion_mode((std::size_t) m2);
